@@ -128,5 +128,21 @@ theorem log_sum_exp (a b : ℝ) : Real.exp (b + Real.log (1 + Real.exp (a - b)))
   field_simp
   ring
 
+theorem exp_le_inv_one_sub (x : ℝ) (hx1 : x < 1) : Real.exp x ≤ 1 / (1 - x) := by
+  have := Real.add_one_le_exp (-x)
+  rw [Real.exp_neg] at this
+  have hpos : 0 < 1 - x := by linarith
+  have hexp := Real.exp_pos x
+  have h1 : (1 - x) * Real.exp x ≤ 1 := by
+    have : (1 - x) * Real.exp x ≤ (Real.exp x)⁻¹ * Real.exp x := by
+      apply mul_le_mul_of_nonneg_right _ hexp.le; linarith
+    rwa [inv_mul_cancel₀ hexp.ne'] at this
+  rw [le_div_iff₀ hpos]; linarith
+
+theorem exp_small : Real.exp ((1000000000000:ℝ)⁻¹) ≤ 1 + 1/1000000000 := by
+  have h := exp_le_inv_one_sub ((1000000000000:ℝ)⁻¹) (by norm_num)
+  have h3 : 1 / (1 - (1000000000000:ℝ)⁻¹) ≤ 1 + 1/1000000000 := by norm_num
+  linarith
+
 end LogVal
 end ProbLogProofs
